@@ -832,6 +832,22 @@ m("c08-selfdestruct-removes-vesting-account", "C08", "x/evm/keeper/statedb.go",
 m("c16-commission-first-coin", "C16", "precompiles/distribution/events.go",
   "\tb.Write(cmn.PackNum(reflect.ValueOf(coins.AmountOf(p.stakingKeeper.BondDenom(ctx)).BigInt())))", "\tb.Write(cmn.PackNum(reflect.ValueOf(coins[0].Amount.BigInt())))",
   "coins-read-by-denomination", "the commission event indexes an answer that may be empty", count=2)
+m("c04-validator-address-raw", "C04", "precompiles/staking/types.go",
+  "\treturn delegatorAddr, canonicalValidatorAddress(validatorAddress), amount, nil\n", "\treturn delegatorAddr, validatorAddress, amount, nil\n",
+  "ValidatorAddress-canonical", "the validator is forwarded as spelled in calldata")
+m("c04-redelegate-destination-raw", "C04", "precompiles/staking/types.go",
+  "\t\tValidatorDstAddress: canonicalValidatorAddress(validatorDstAddress),\n", "\t\tValidatorDstAddress: validatorDstAddress,\n",
+  "ValidatorDstAddress-canonical", "the destination validator is forwarded as spelled in calldata")
+m("c04-canonical-helper-returns-input", "C04", "precompiles/staking/types.go",
+  "\treturn valAddr.String()\n}", "\t_ = valAddr\n\treturn address\n}",
+  "-canonical", "the canonicalising helper returns its input")
+for prop in ("C04", "C05"):
+    m("c%s-erc20-run-on-live-context" % prop[1:], prop, "precompiles/erc20/erc20.go",
+      "\tctx, writeCache := ctx.CacheContext()\n", "\twriteCache := func() {}\n",
+      "(precompiles/erc20.Precompile).Run#handlers-run-on-a-branch", "the ERC-20 precompile runs on the transaction's own context")
+m("c05-werc20-write-before-gas-check", "C05", "precompiles/werc20/werc20.go",
+  "\tctx, writeCache := ctx.CacheContext()\n", "\tctx, writeCache := ctx.CacheContext()\n\twriteCache()\n",
+  "(precompiles/werc20.Precompile).Run#handlers-run-on-a-branch", "the branch is written before the method ran")
 for prop in ("C16", "C07"):
     m("c%s-gas-meter-without-precharge" % prop[1:], prop, "precompiles/common/precompile.go",
       "sdk.NewGasMeter(initialGas + contract.Gas)", "sdk.NewGasMeter(contract.Gas)",
